@@ -2,6 +2,7 @@
     Statements only; proofs in Proofs/RegistryProofs.v.  All theorems hold for EVERY registry
     [r] (not only the bundled one) and every container. *)
 From PintV Require Import Model.UC Model.Eval Model.Registry Proofs.UCProofs Proofs.RegistryProofs.
+From PintV Require Import Proofs.RootProofs Proofs.FactorProofs.
 From PintV Require Import Gen.DefaultDefs Gen.DefaultReg.
 Open Scope string_scope.
 
@@ -13,6 +14,18 @@ Proof. exact (conv_factor_edim r src dst ds dd). Qed.
 Theorem C01_number_only_if_same_dim r src dst ds dd y :
   dim_of r src = Ok ds → dim_of r dst = Ok dd → conv_factor r src dst = Ok y → ds = dd.
 Proof. exact (conv_factor_number_only_if_same_dim r src dst ds dd y). Qed.
+
+(** the full biconditional: between expandable units with rational factors, conversion
+    succeeds (returns a number) if and only if the dimensionalities are identical *)
+Theorem C01_convert_ok_iff r src dst Fs Bs Fd Bd ds dd :
+  reg_nz r → wf src → exact_unit r src Fs Bs → exact_unit r dst Fd Bd →
+  dim_of r src = Ok ds → dim_of r dst = Ok dd →
+  ((∃ y, conv_factor r src dst = Ok y) ↔ ds = dd).
+Proof.
+  intros Hnz W Es Ed Hs Hd. split.
+  - intros [y Hy]. exact (conv_factor_number_only_if_same_dim r src dst ds dd y Hs Hd Hy).
+  - intros <-. destruct (conv_factor_value r src dst Fs Bs Fd Bd ds Hnz W Es Ed Hs Hd) as [ex H]. eauto.
+Qed.
 
 (** dimensionality is a homomorphism from (units, *, /, ** ) to (dimensions, *, /, ** ) *)
 Theorem C01_dim_mul r a b da db :
